@@ -73,12 +73,18 @@ def _alarm(signum, frame):
 
 @contextlib.contextmanager
 def watchdog(seconds):
+    """Per-case watchdog: fires after `seconds` of CPU time of this process (a logical measure, independent of machine load) or
+    after 4 x `seconds` of wall-clock time (a call blocked on worker processes uses no CPU here). Firing = that case is inconclusive."""
     old = signal.signal(signal.SIGALRM, _alarm)
-    signal.setitimer(signal.ITIMER_REAL, seconds)
+    oldp = signal.signal(signal.SIGPROF, _alarm)
+    signal.setitimer(signal.ITIMER_REAL, 4 * seconds)
+    signal.setitimer(signal.ITIMER_PROF, seconds)
     try:
         yield
     finally:
+        signal.setitimer(signal.ITIMER_PROF, 0)
         signal.setitimer(signal.ITIMER_REAL, 0)
+        signal.signal(signal.SIGPROF, oldp)
         signal.signal(signal.SIGALRM, old)
 
 
@@ -157,7 +163,19 @@ def short(o, n=400):
 # ----------------------------------------------------------------------------------
 # per-shard recording context
 
+_WALL = time.time          # the real clock, whatever a fault-injecting monitor does to the `time` module later
+
+
+def _cpu():
+    """CPU seconds used by this process and the child processes it has already reaped."""
+    t = os.times()
+    return t[0] + t[1] + t[2] + t[3]
+
+
 class Ctx:
+    # The workload budget is counted in CPU seconds (a logical measure: the same number of cases is run on a loaded machine as
+    # on an idle one); a generous wall-clock cap of WALL_CAP x budget only keeps a run from hanging.
+    WALL_CAP = 4.0
     MAX_SET = 400
     MAX_SAMPLES = 4
     MAX_VIOL_PER_KEY = 3
@@ -166,7 +184,8 @@ class Ctx:
         import numpy as np
         self.prop, self.tier, self.seed = prop, tier, seed
         self.shard, self.nshards = shard, nshards
-        self.t0 = time.time()
+        self.t0 = _WALL()
+        self.c0 = _cpu()
         self.budget_s = budget_s
         self.evaluations = 0
         self.digests = set()
@@ -183,7 +202,7 @@ class Ctx:
 
     # --- budget -----------------------------------------------------------------
     def time_left(self):
-        return self.budget_s - (time.time() - self.t0)
+        return min(self.budget_s - (_cpu() - self.c0), self.WALL_CAP * self.budget_s - (_WALL() - self.t0))
 
     def out_of_time(self):
         if self.time_left() <= 0:
@@ -238,7 +257,8 @@ class Ctx:
             'violations': self.violations,
             'vcount': self._vcount,
             'notes': self.notes,
-            'wall_s': time.time() - self.t0,
+            'wall_s': _WALL() - self.t0,
+            'cpu_s': _cpu() - self.c0,
         }
 
 
@@ -356,7 +376,7 @@ def run_property(pid, tier, seed, nshards=None):
         if fn.startswith('shard_'):
             os.unlink(os.path.join(wdir, fn))
     budget = tier_budget(mod, tier)
-    hard = budget * 3 + 120  # generous wall-clock watchdog per shard: firing => inconclusive
+    hard = budget * 6 + 300  # generous wall-clock watchdog per shard (above the shard's own 4 x budget wall cap): firing => inconclusive
     procs = []
     env = dict(os.environ)
     env['PYTHONPATH'] = VERIF + os.pathsep + env.get('PYTHONPATH', '')
